@@ -118,7 +118,7 @@ pub fn specs() -> Vec<CheckSpec> {
             id: "C16",
             engine: "opsim",
             level: "exploration",
-            owns: &["address", "content-integrity", "content-lost", "read-exact", "checked-read", "exists", "write-ok", "commit-accept"],
+            owns: &["address", "content-integrity", "content-lost", "read-exact", "checked-read", "exists", "write-ok", "commit-accept", "serializability", "partial-record"],
             runs: (2500, 120_000),
             rule: "a case = history re-writing 1-2 values under several keys, algorithms, entry points and flavours; returned address compared with the simulator's digest; content area compared with the model (one file per address, bytes intact); optional damage of one algorithm's copy. Non-trivial = the same bytes were written at least twice",
             assumptions: A_COMMON,
